@@ -25,8 +25,6 @@ type vpPubChain struct {
 	newWhen   uint64
 }
 
-func vpMark(t *coin.Transaction) int { return int(t.Out[0].Hours) }
-
 func (c *vpPubChain) VerifySingleTxnSoftHardConstraints(tx *dbutil.Tx, txn coin.Transaction, d params.Distribution, v params.VerifyTxn, s transaction.TxnSignedFlag) (*coin.SignedBlock, coin.UxArray, error) {
 	switch c.invalid[vpMark(&txn)] {
 	case 1:
@@ -54,17 +52,6 @@ func vpModelMultUint64(a, b uint64) (uint64, error) {
 		return 0, mathutil.ErrUint64MultOverflow
 	}
 	return lo, nil
-}
-
-// transaction ids: concrete and pairwise distinct (tag byte), sizes from the shape
-func vpModelTxnHashTag(t *coin.Transaction) cipher.SHA256 {
-	var h cipher.SHA256
-	h[0], h[1] = t.InnerHash[0], 0x55
-	return h
-}
-
-func vpModelTxnSizeHashTag(t *coin.Transaction) (uint32, cipher.SHA256, error) {
-	return uint32(49 + 65*len(t.Sigs) + 32*len(t.In) + 37*len(t.Out)), vpModelTxnHashTag(t), nil
 }
 
 //vp:prop C05
